@@ -15,6 +15,7 @@ import (
 	"github.com/wmnsk/go-pfcp/ie"
 	"github.com/wmnsk/go-pfcp/message"
 
+	"github.com/free5gc/go-upf/internal/forwarder"
 	"github.com/free5gc/go-upf/internal/logger"
 	"github.com/free5gc/go-upf/pkg/factory"
 )
@@ -103,6 +104,26 @@ func TestVerifReplay(t *testing.T) {
 			if tx.seq != wire {
 				fmt.Println("REPLAY-CONFIRMED txseq24: the key's sequence number is not the 24-bit number on the wire; the response can never match")
 			}
+		}
+	case strings.Contains(m.Obligation, "UpdatePDR#refadd"):
+		// URR 1 exists, PDR 1 is created without URRs, then an Update PDR names URR 1: the URR is now referenced by
+		// exactly one PDR, so its reference count must be 1 and removing that PDR must detach the last reference
+		_, rn := verifNode()
+		rn.driver = forwarder.Empty{}
+		sess := rn.NewSess(1)
+		if err := sess.CreateURR(ie.NewCreateURR(ie.NewURRID(1), ie.NewMeasurementMethod(0, 1, 0))); err != nil {
+			t.Fatal(err)
+		}
+		if err := sess.CreatePDR(ie.NewCreatePDR(ie.NewPDRID(1))); err != nil {
+			t.Fatal(err)
+		}
+		if _, err := sess.UpdatePDR(ie.NewUpdatePDR(ie.NewPDRID(1), ie.NewURRID(1))); err != nil {
+			t.Fatal(err)
+		}
+		_, named := sess.PDRIDs[1].RelatedURRIDs[1]
+		fmt.Printf("after Update PDR 1 {URR 1}: PDR 1 names URR 1: %v, refPdrNum(URR 1) = %d\n", named, sess.URRIDs[1].refPdrNum)
+		if named && sess.URRIDs[1].refPdrNum != 1 {
+			fmt.Println("REPLAY-CONFIRMED refadd: a URR added to a PDR by Update PDR is not counted as referenced; removing that PDR later yields no final usage report")
 		}
 	case strings.Contains(m.Obligation, "UpdateNodeID#reg"):
 		// two associated nodes with one session each; a modification request for a session of smfA names smfB as
